@@ -374,8 +374,10 @@ def main_check(prop, tier, jobs=None):
         "wall_s": round(wall, 2),
         "violations": int(sum(unknown.values())),
     }
-    os.makedirs(os.path.join(VERIF_DIR, "evidence"), exist_ok=True)
-    with open(os.path.join(VERIF_DIR, "evidence", f"{prop}.json"), "w") as f:
+    # runs against a scratch copy of the tree (mutant runs) must not overwrite the evidence of /repo
+    evdir = os.path.join(VERIF_DIR, "evidence" if root == "/repo" else "evidence-scratch")
+    os.makedirs(evdir, exist_ok=True)
+    with open(os.path.join(evdir, f"{prop}.json"), "w") as f:
         json.dump(evidence, f, indent=1, sort_keys=True)
         f.write("\n")
     print(
